@@ -122,8 +122,8 @@ DenObject(s, raw) ==
              ds == [i \in DOMAIN s.props |-> IF eff[i].some THEN Denotes(s.props[i].type, eff[i].v) ELSE DOpen]
              present == {i \in DOMAIN s.props : eff[i].some}
          IN IF \E i \in present : ds[i].d = "none" THEN DNone
-            \* a disabled property that is "in use" only through its own default: the statement is silent
-            ELSE IF \E i \in present : s.props[i].disabled /\ ~given[i].some THEN DOpen
+            \* ("after defaulting ... no disabled property is in use": a disabled property that its own default
+            \* puts in use makes Satisfies fail, like a supplied one)
             ELSE IF \E i \in present : ds[i].d = "open" THEN DOpen
             ELSE DSome(ObjValue(s, [i \in DOMAIN s.props |-> IF i \in present THEN Some(ds[i].v) ELSE None]))
 
